@@ -172,7 +172,8 @@ fn run_t(sc: &TScenario, prefix: &[u8]) -> (Vec<Vec<Obs>>, Vec<String>, Verdict,
                 .collect()
         }));
     }
-    let (results, trace) = run_once(prefix, closures);
+    // points after an operation: in every 2-thread scenario (3 threads: points before operations)
+    let (results, trace) = run_once_with(prefix, closures, sc.threads.len() <= 2);
     let per_thread: Vec<Vec<Obs>> = results
         .into_iter()
         .map(|r| r.unwrap_or_else(|msg| vec![Obs::Panic(format!("thread died: {msg}"))]))
